@@ -345,6 +345,67 @@ Proof.
     apply add_rows_feasible. split; [exact Hf|]. apply (HQ x Hf). apply (Hresp (dec x) y D). exact Qy.
 Qed.
 
+(* ---------- the same problem delivering into several nodes with factors (MultiCommodityContract, assets.py:2237-2246) ---------- *)
+Lemma multi_block_dispatch mp node0 ni fi x a n t :
+  Forall (fun r => is_d r = true /\ m_node r = Some node0) mp ->
+  dispatch_out (map (fun r => Build_mrow (m_var r) (m_asset r) (Some ni) (m_type r) (m_step r) (Qred (m_factor r * fi)) (m_name r) (m_bool r))
+                    (filter is_d mp)) x a n t ==
+  if String.eqb n ni then fi * dispatch_out mp x a node0 t else 0.
+Proof.
+  intros H. unfold dispatch_out. induction mp as [|r mp IH]; [cbn; destruct (String.eqb n ni); ring|].
+  inversion H as [|? ? [Hd Hn] Hm]; subst. specialize (IH Hm). cbn [filter]. rewrite Hd. cbn [map filter].
+  assert (S1 : forall r', sel n t (Build_mrow (m_var r') (m_asset r') (Some ni) (m_type r') (m_step r') (Qred (m_factor r' * fi)) (m_name r') (m_bool r'))
+                          = is_d r' && String.eqb n ni && Nat.eqb (m_step r') t) by reflexivity.
+  assert (S2 : sel node0 t r = Nat.eqb (m_step r) t).
+  { unfold sel, at_node. rewrite Hd, Hn, String.eqb_refl. reflexivity. }
+  rewrite S1, S2, Hd. cbn [m_asset andb].
+  destruct (String.eqb n ni) eqn:En; cbn [andb]; [|rewrite andb_false_r; exact IH].
+  destruct (String.eqb (m_asset r) a && Nat.eqb (m_step r) t); [|exact IH].
+  cbn [map qsum m_var m_factor]. rewrite IH, Qred_correct. ring.
+Qed.
+
+Lemma multi_dispatch mp node0 nodes factors x a n t :
+  Forall (fun r => is_d r = true /\ m_node r = Some node0) mp ->
+  dispatch_out (multi_map mp nodes factors) x a n t ==
+  qsum (map (fun nf => if String.eqb n (fst nf) then snd nf * dispatch_out mp x a node0 t else 0) (combine nodes factors)).
+Proof.
+  intros H. unfold multi_map. induction (combine nodes factors) as [|[ni fi] l IH]; [reflexivity|].
+  cbn [flat_map map qsum fst snd]. rewrite dispatch_out_app, IH. rewrite (multi_block_dispatch mp node0 ni fi x a n t H). reflexivity.
+Qed.
+
+Definition tb_multi (S : tb) (node0 : string) (nodes : list string) (factors : vec) : tb :=
+  {| tb_adm := tb_adm S; tb_cost := tb_cost S;
+     tb_flow := fun y n t => qsum (map (fun nf => if String.eqb n (fst nf) then snd nf * tb_flow S y node0 t else 0) (combine nodes factors)) |}.
+
+Theorem multi_realises nm a dec S node0 nodes factors :
+  realises nm a dec S -> Forall (fun r => is_d r = true /\ m_node r = Some node0) (ap_map a) ->
+  realises nm {| ap_lp := ap_lp a; ap_map := multi_map (ap_map a) nodes factors |} dec (tb_multi S node0 nodes factors).
+Proof.
+  intros [R1 R2] Hm. split; cbn [ap_lp ap_map tb_multi tb_adm tb_cost tb_flow].
+  - intros x Hf. destruct (R1 x Hf) as (A & C & F). split; [exact A|split; [exact C|]].
+    intros n t. rewrite (multi_dispatch _ node0 _ _ _ _ _ _ Hm). apply qsum_map_ext. intros nf _. destruct (String.eqb n (fst nf)); [rewrite F|]; reflexivity.
+  - intros y Ay. destruct (R2 y Ay) as (x & Hf & C & F & D). exists x. split; [exact Hf|split; [exact C|split; [|exact D]]].
+    intros n t. rewrite (multi_dispatch _ node0 _ _ _ _ _ _ Hm). apply qsum_map_ext. intros nf _. destruct (String.eqb n (fst nf)); [rewrite F|]; reflexivity.
+Qed.
+
+Lemma multi_map_wf mp nodes factors nm nv :
+  Forall (fun r => m_asset r = nm /\ (m_var r < nv)%nat) mp ->
+  Forall (fun r => m_asset r = nm /\ (m_var r < nv)%nat) (multi_map mp nodes factors).
+Proof.
+  intros H. unfold multi_map. apply Forall_forall. intros r Hr. apply in_flat_map in Hr. destruct Hr as (nf & _ & Hr).
+  apply in_map_iff in Hr. destruct Hr as (r0 & <- & Hr0). apply filter_In in Hr0. destruct Hr0 as [Hr0 _].
+  rewrite Forall_forall in H. exact (H r0 Hr0).
+Qed.
+
+Theorem multi_unit_ok (u : unit_) node0 nodes factors :
+  u_ok u -> Forall (fun r => is_d r = true /\ m_node r = Some node0) (ap_map (u_prob u)) ->
+  u_ok {| u_name := u_name u; u_prob := {| ap_lp := ap_lp (u_prob u); ap_map := multi_map (ap_map (u_prob u)) nodes factors |};
+          u_dec := u_dec u; u_tb := tb_multi (u_tb u) node0 nodes factors |}.
+Proof.
+  intros (W & M & R) Hm. unfold u_ok. cbn [u_name u_prob u_dec u_tb ap_lp ap_map].
+  split; [exact W|split; [apply multi_map_wf; exact M|apply multi_realises; assumption]].
+Qed.
+
 (* ====================================================================================== *)
 (* Instances: the builders of Assets.v realise the textbook objects of the property text  *)
 (* ====================================================================================== *)
@@ -387,6 +448,12 @@ Proof.
   unfold mk_rows. apply Forall_forall. intros r Hr. apply in_map_iff in Hr. destruct Hr as (((k, i), f) & <- & Hin).
   cbn [m_asset m_var fst snd]. split; [reflexivity|].
   apply in_combine_l in Hin. apply in_combine_l in Hin. apply in_seq in Hin. lia.
+Qed.
+
+Lemma mk_rows_d name node vn off fac I :
+  Forall (fun r => is_d r = true /\ m_node r = Some node) (mk_rows name (Some node) "d" vn off fac I).
+Proof.
+  unfold mk_rows. apply Forall_forall. intros r Hr. apply in_map_iff in Hr. destruct Hr as (q & <- & _). split; reflexivity.
 Qed.
 
 (* ---------------- Transport ---------------- *)
@@ -1260,5 +1327,10 @@ Proof.
     apply in_flat_map in Hmr. destruct Hmr as (t & _ & Hmr). apply filter_In in Hmr. destruct Hmr as [Hmr _].
     rewrite Forall_forall in M. destruct (M mr Hmr) as [_ Hv]. exact Hv. }
   split; apply TW.
+Qed.
+
+Lemma contract_map_d : Forall (fun r => is_d r = true /\ m_node r = Some (cp_node p)) (ap_map a).
+Proof.
+  pose proof contract_shape as SH. destruct single; destruct SH as [_ EM]; rewrite EM; [|apply Forall_app; split]; apply mk_rows_d.
 Qed.
 End ContractInstance.
